@@ -23,7 +23,9 @@ pub trait BuildSchema {
 	/// Build a [`SchemaMut`] for this type
 	fn schema_mut() -> SchemaMut {
 		let mut builder = SchemaBuilder::default();
-		Self::append_schema(&mut builder);
+		// Going through `find_or_build` registers the root type before building it, so
+		// that a recursive root type refers to itself instead of being built twice
+		builder.find_or_build::<Self>();
 		SchemaMut::from_nodes(builder.nodes)
 	}
 
